@@ -72,6 +72,10 @@ class Run:
                 last = e
         return last
 
+    def residual_points(self, ev_range):
+        """all comparisons with the identity during a verification (one per internal chunk of the batch)"""
+        return [e for e in self.events_in(ev_range) if e['ev'] == 'branch' and e['kind'] == 'point_eq' and e['detail']['b'] == 0]
+
     def form(self, pid):
         return {b: n for b, n in self.core['points'][pid]}
 
@@ -355,6 +359,7 @@ def parallel_cases(ctx, cases, analyse, workers=14, enc=0):
         d = run_symx(case['cfg'], ctx.seed, enc)
         run = Run(d)
         S = Session('z3', ctx.D.timeout_s)
+        S.T = run.T
         try:
             analyse(ctx, case, run, S)
         finally:
